@@ -81,23 +81,29 @@ def mtype(rng, shape, el, kind):
 
 def gen_op(rng: random.Random, layouts=("none",), kinds=None):
     """One dart.operation in a function @main taking the operand memrefs as arguments."""
-    kinds = kinds or ["gemmx_matmul", "gemmx_matmul", "gemmx_gemm", "gemmx_matmul_rescale", "gemmx_rescale", "gemmx_conv", "alu", "alu", "xdma_add"]
+    kinds = kinds or ["gemmx_matmul", "gemmx_matmul", "gemmx_gemm", "gemmx_matmul_rescale", "gemmx_gemm_rescale", "gemmx_rescale", "gemmx_conv", "alu", "alu", "xdma_add"]
     kind = rng.choice(kinds)
     lk = lambda: rng.choice(layouts)  # noqa: E731
     dims8 = [8, 16, 24, 32, 40, 48]
     odd = rng.random() < 0.12
     pick = lambda: rng.choice(dims8) if not odd else rng.choice([4, 12, 20, 8, 16])  # noqa: E731
     prelude = "    %zp = arith.constant 0 : i32\n"
-    if kind.startswith("gemmx_matmul") or kind == "gemmx_gemm":
+    if kind.startswith("gemmx_matmul") or kind in ("gemmx_gemm", "gemmx_gemm_rescale"):
         M, N, K = pick(), pick(), pick()
-        i8_out = kind == "gemmx_matmul_rescale"
+        i8_out = kind in ("gemmx_matmul_rescale", "gemmx_gemm_rescale")
+        rescale_attrs = RESCALE_ATTRS
+        if i8_out and rng.random() < 0.4:
+            # per-output-channel quantisation: one multiplier / shift per column of the result
+            mults = ", ".join(str(rng.randrange(1, 1 << 20)) for _ in range(N))
+            shifts = ", ".join(str(rng.randrange(8, 40)) for _ in range(N))
+            rescale_attrs = f"{{input_zp = 3 : i32, output_zp = -5 : i32, multiplier = array<i32: {mults}>, shift = array<i8: {shifts}>, min_int = -128 : i32, max_int = 127 : i32, double_round = true}}"
         shapes = [[M, K], [K, N]]
         els = ["i8", "i8"]
         maps = [amap(3, ["d0", "d2"]), amap(3, ["d2", "d1"])]
         body = rng.choice([QMAC, MAC])
         streams = ["i8", "i8"]
         last = "%g"
-        if kind == "gemmx_gemm":
+        if kind in ("gemmx_gemm", "gemmx_gemm_rescale"):
             shapes.append([M, N])
             els.append("i32")
             maps.append(amap(3, ["d0", "d1"]))
@@ -113,7 +119,7 @@ def gen_op(rng: random.Random, layouts=("none",), kinds=None):
             body += f"""
       %g3 = "dart.generic"({last}) <{{library_call = "snax_gemmx"}}> ({{
       ^bb3(%x3: i32, %o3: i8):
-        %k3 = "kernel.rescale"(%x3) {RESCALE_ATTRS} : (i32) -> i8
+        %k3 = "kernel.rescale"(%x3) {rescale_attrs} : (i32) -> i8
         dart.yield %k3 : i8
       }}) : (!dart.stream<i32>) -> !dart.stream<i8>"""
             last = "%g3"
